@@ -285,7 +285,9 @@ def m3(ck, em, rng, nscn, seeds=None):
                     "valid": valid, "why": ""}
         stop = {"ev": "Stop", "k": K, "rank": 0, "rel": "na", "guard": False, "valid": True, "why": ""}
         # ---- driver A: module-level e_step / m_step from a seeded T
-        for driver in ("steps", "fit"):
+        for driver in ("steps", "fit", "fit-bag"):
+            if driver == "fit-bag" and (seed % 2 or not upd):
+                continue        # the Bag path: every second trace that updates the covariance
             try:
                 if driver == "steps":
                     mach = iv.make_machine(em, means, T0, var, Rt, floor, upd)
@@ -294,11 +296,17 @@ def m3(ck, em, rng, nscn, seeds=None):
                         m_step(mach, e_step(mach, gs))
                         states.append((np.array(mach.T, dtype=float), np.array(mach.sigma, dtype=float)))
                 else:
+                    import dask
+                    import dask.bag
                     states = []
                     for k in range(1, K + 1):
                         np.random.seed(seed % 9973)
                         mach = em.IVectorMachine(ubm, dim_t=Rt, max_iterations=k, update_sigma=upd, variance_floor=floor)
-                        mach.fit(gs)
+                        if driver == "fit":
+                            mach.fit(gs)
+                        else:
+                            with dask.config.set(scheduler="synchronous"):
+                                mach.fit(dask.bag.from_sequence(gs, npartitions=min(2, len(gs))))
                         states.append((np.array(mach.T, dtype=float), np.array(mach.sigma, dtype=float)))
             except Exception as e:
                 ck.violation("M3:IVector:AllFinite", {"mechanism": "M3", "module": "TraceLoop", "meta": me, "driver": driver,
@@ -316,7 +324,7 @@ def m3(ck, em, rng, nscn, seeds=None):
                       "ev": ev + [dict(stop, k=K + 1)]}
             else:
                 ev = [event(k + 1, rk[k], *states[k]) for k in range(K)]
-                tr = {"kind": "ivector-fit", "cap": K, "thr": False, "dir": "up", "ev": ev + [stop]}
+                tr = {"kind": "ivector-" + driver, "cap": K, "thr": False, "dir": "up", "ev": ev + [stop]}
             trs.append(tr)
             meta.append(dict(me, driver=driver, marginal=vals,
                              sigma_last=states[-1][1].tolist(), T_last=states[-1][0].tolist(),
